@@ -1459,6 +1459,50 @@ def gen_pattern_table(repo, out):
     guarded(out, "timezone_names", w_zone, zones)
 
 
+PARSER_RS = "src/encode/pattern/parser.rs"
+
+
+def gen_pattern_depth(repo, out):
+    """`const MAX_DEPTH: usize = N;` of parser.rs, its use in Parser::arg (`self.depth == MAX_DEPTH`, one
+    `self.depth += 1` / `self.depth -= 1` pair around arg_pieces) and the error literal of that branch."""
+    what = "parser.rs: `const MAX_DEPTH: usize = N` (a literal), `if self.depth == MAX_DEPTH { … return Err(\"nesting too deep\"…) }` followed by `self.depth += 1; … self.depth -= 1;` in Parser::arg  ↔  Profile.maxDepth (default) / eNestingTooDeep of Pattern/Parser.lean"
+
+    def one():
+        F = repo.file(PARSER_RS)
+        i = F.one_kw("const", "MAX_DEPTH")
+        e = F.item_end(i)
+        eq = F.find_seq(["="], i, e)
+        if eq < 0:
+            raise Unreadable("expected `const MAX_DEPTH: usize = <literal>;`", F.at(i))
+        n = eval_int_expr(F, eq + 1, e - 1)
+        fi, lo, hi = F.fn_body("arg")
+        c = F.find_seq(["if", "self", ".", "depth", "==", "MAX_DEPTH", "{"], lo, hi)
+        if c < 0:
+            raise Unreadable("expected `if self.depth == MAX_DEPTH {` in Parser::arg", F.at(fi))
+        close = F.pair[c + 6]
+        lits = [t.v for t in F.T[c + 6:close] if t.k == "str"]
+        if len(lits) != 1 or F.find_seq(["return", "Err", "("], c + 6, close) < 0:
+            raise Unreadable("expected exactly one `return Err(\"…\".to_owned())` in the MAX_DEPTH branch of Parser::arg", F.at(c))
+        inc = F.find_seq(["self", ".", "depth", "+=", "1", ";"], close, hi)
+        dec = F.find_seq(["self", ".", "depth", "-=", "1", ";"], close, hi)
+        if inc < 0 or dec < 0 or dec < inc:
+            raise Unreadable("expected `self.depth += 1; … self.depth -= 1;` after the MAX_DEPTH test of Parser::arg", F.at(c))
+        for j, t in enumerate(F.T):
+            if t.k == "id" and t.v == "MAX_DEPTH" and F.active(j) and j not in (i + 1, c + 5):
+                raise Unreadable("MAX_DEPTH is used somewhere else than in the test of Parser::arg", F.at(j))
+        out.define("def maxDepth : Nat := %d" % n)
+        out.define("def nestingTooDeep : List Char := %s" % lean_chars(lits[0]))
+        out.theorem("max_depth",
+                    "({} : %sProfile).maxDepth = Gen.maxDepth ∧ %sProfile.debug64.maxDepth = Gen.maxDepth ∧ %sProfile.release64.maxDepth = Gen.maxDepth ∧ %seNestingTooDeep = Gen.nestingTooDeep" % (PP, PP, PP, PP),
+                    "by decide +kernel", F.at(i), what)
+    guarded(out, "max_depth", what, one)
+
+
+def gen_pattern(repo, out):
+    gen_pattern_table(repo, out)
+    gen_pattern_depth(repo, out)
+
+
 # =============================================================================================
 # C18 — SGR colour digits, highlight styles, COLOR_MODE cascade, set_style buffer
 # =============================================================================================
@@ -1962,8 +2006,8 @@ def register(pid, imports, opens, fn):
 
 
 register("C20", ["Log4rsModel.Literals.Model", "Log4rsModel.ConfigDoc.Schema"], [], gen_C20)
-register("C09", ["Log4rsModel.Pattern.ChunkTableLemmas"], [], gen_pattern_table)
-register("C11", ["Log4rsModel.Pattern.ChunkTableLemmas"], [], gen_pattern_table)
+register("C09", ["Log4rsModel.Pattern.ChunkTableLemmas"], [], gen_pattern)
+register("C11", ["Log4rsModel.Pattern.ChunkTableLemmas"], [], gen_pattern)
 register("C18", ["Log4rsModel.Console.Model"], [], gen_C18)
 register("C12", ["Log4rsModel.Json.FieldTable"], [], gen_C12)
 register("C04", ["Log4rsModel.Rolling.BufWriter"], [], gen_bufwriter([("file_appender", FILE_RS)]))
